@@ -290,6 +290,43 @@ def convergence_case(args):
     return {"bad": out, "n": 2 * len(order)}
 
 
+def interleaved_case(args):
+    """a parameter scan as users write it: all Tempo / PtTempo objects (different coupling strengths, same dt and
+    epsrel) are CONSTRUCTED first and propagated afterwards, in the given order; each against the analytic solution."""
+    mid, rot, order = args
+    alphas = (0.05, 0.3, 0.8)
+    n, dt = 4, 0.2
+    h, o, rho0 = model(mid, rot)
+    objs = {}
+    try:
+        for a in alphas:
+            sd = C.sd_spec("power", a, 1.0, WC, "exponential", 0.0)
+            bath = oq.Bath(o, C.lib_correlations(sd))
+            prm = C.make_params(dt, EPSREL)
+            objs[a] = (sd, oq.Tempo(oq.System(h), bath, prm, rho0, 0.0),
+                       oq.PtTempo(bath, 0.0, (n + 0.25) * dt, prm))
+        out = []
+        for i, (a, meth) in enumerate(order):
+            sd, tempo, ptt = objs[a]
+            if meth == "tempo":
+                states = np.array(tempo.compute((n + 0.25) * dt, progress_type="silent").states)
+            else:
+                pt = ptt.get_process_tensor(progress_type="silent")
+                states = np.array(oq.compute_dynamics(oq.System(h), rho0, process_tensor=pt, progress_type="silent").states)
+            exps, _ = C.memory_exponents(sd, dt, n, None, None)
+            ref = np.array(C.independent_boson(h, o, rho0, dt, exps))
+            omax = float(np.abs(np.linalg.eigvalsh(o)).max())
+            tol = tolerance(4.0 * omax ** 2 * max(abs(e) for e in exps), EPSREL, quad_floor(sd))
+            dev = float(np.abs(states - ref).max()) if states.shape == ref.shape else 9.9
+            if dev > tol:
+                out.append((f"interleaved|{meth}|{'first' if i == 0 else 'after-other-objects'}-propagated|state-mismatch",
+                            f"model {mid} rot={rot}: objects for alpha={alphas} built first, propagated in the order {order}: "
+                            f"{meth} alpha={a} deviates from the analytic solution by {dev:.2e}"))
+    except Exception as ex:  # noqa
+        return {"bad": [(f"interleaved|exception:{type(ex).__name__}", str(ex)[:150])], "n": 0}
+    return {"bad": out, "n": len(order)}
+
+
 def canonical_key(c, r):
     """Distinct cases are counted by what the library is actually asked to do: memory settings whose
     add_correlation_time cannot act (no dkmax, or dkmax + 1 >= n) collapse onto one key per branch label."""
@@ -425,6 +462,16 @@ def run(tier, seed):
     cjobs = [(mid, rot, order) for (mid, rot) in (("d2", False), ("d3deg", True), ("d3", False))
              for order in itertools.permutations((0.1, 0.2, 0.37))]
     cres = pmap(convergence_case, cjobs, chunksize=1, seed=seed)
+    ij = []
+    for (mid, rot) in (("d2", False), ("d3deg", True)):
+        for perm in itertools.permutations((0.05, 0.3, 0.8)):
+            ij.append((mid, rot, tuple((a, "tempo") for a in perm)))
+            ij.append((mid, rot, tuple((a, "pt") for a in perm)))
+            ij.append((mid, rot, tuple((a, m_) for a, m_ in zip(perm, ("tempo", "pt", "tempo")))))
+    ires = pmap(interleaved_case, ij, chunksize=1, seed=seed)
+    for j, r in zip(ij, ires):
+        for cls, what in r["bad"]:
+            rep.add(Violation(cls, what, {"fam": "interleaved", "args": [j[0], j[1], [list(x) for x in j[2]]]}))
     for j, r in zip(cjobs, cres):
         for cls, what in r["bad"]:
             rep.add(Violation(cls, what, {"fam": "convergence", "args": [j[0], j[1], list(j[2])]}))
@@ -523,6 +570,7 @@ def run(tier, seed):
 
     rep.coverage = {
         "evaluations": evaluations + sum(r["n"] for r in cres),
+        "interleaved_object_orders": len(ij),
         "convergence_sequences": {"models": 3, "orders_of_time_steps": 6, "runs": sum(r["n"] for r in cres)},
         "distinct_nontrivial": len(keys),
         "trivial_or_inactive": trivial,
@@ -567,6 +615,10 @@ def run(tier, seed):
 
 
 def replay(rp):
+    if rp.get("fam") == "interleaved":
+        a = rp["args"]
+        r = interleaved_case((a[0], a[1], tuple((x[0], x[1]) for x in a[2])))
+        return {"obs": [b[0] for b in r["bad"]], "violation": r["bad"][0][0] if r["bad"] else None}
     if rp.get("fam") == "convergence":
         a = rp["args"]
         r = convergence_case((a[0], a[1], tuple(a[2])))
